@@ -104,6 +104,20 @@ def projections(ctx, rep, clause):
     for i, a in enumerate(ctor.args):
         if i < len(names):
             bind[names[i]] = a
+    # a __post_init__ that replaces a field changes what the derived properties see
+    post = frag_cls.methods.get('__post_init__')
+    rewritten = []
+    if post is not None:
+        for x in walk_own(post.node):
+            if isinstance(x, ast.Call) and norm_stmt(x.func) in ('object.__setattr__', 'setattr') and len(x.args) == 3 and \
+                    norm_stmt(x.args[0]) == 'self' and isinstance(x.args[1], ast.Constant):
+                rewritten.append((x.args[1].value, x.args[2], x))
+            if isinstance(x, ast.Assign) and isinstance(x.targets[0], ast.Attribute) and \
+                    norm_stmt(x.targets[0].value) == 'self':
+                rewritten.append((x.targets[0].attr, x.value, x))
+    for fld, val, node in rewritten:
+        if fld in bind:
+            bind[fld] = _SelfSubst(dict(bind), {}).visit(copy.deepcopy(val))
     missing = [n for n in names if n not in bind]
     ob(rep, 'PROJ', BUILD, 'Fragment(...) binds every field', not missing, f'{len(names)} fields',
        f'fields {missing} are not bound', f.loc(ctor), clause)
@@ -330,6 +344,31 @@ def component_expr(f: FuncInfo) -> Optional[str]:
     return None
 
 
+def builder_subsets(ctx, rep, clause):
+    program = ctx.program
+    fr = program.func(f'{FR}:fragment')
+    # each builder gets the ion types of its own series (or filters them itself): an internal span built as a `b`
+    # ion would be reported under the label of a terminal ion
+    cfr = Canon(fr.node)
+    for callee, series in (('_get_terminal_fragments', 'TERMINAL_ION_TYPES'), ('_get_internal_fragments', 'INTERNAL_ION_TYPES')):
+        calls = [c_ for c_ in walk_own(fr.node) if isinstance(c_, ast.Call) and isinstance(c_.func, ast.Name) and
+                 c_.func.id == callee]
+        if not calls:
+            raise AnalysisError(f'fragment(): call of {callee} not found')
+        cf = program.func(f'{FR}:{callee}')
+        own = {x.id for x in ast.walk(cf.node) if isinstance(x, ast.Name)}
+        self_filter = series in own or (callee == '_get_terminal_fragments' and
+                                        {'FORWARD_ION_TYPES', 'BACKWARD_ION_TYPES'} <= own)
+        for c_ in calls:
+            arg = c_.args[1] if len(c_.args) > 1 else next((kw.value for kw in c_.keywords if kw.arg == 'ion_types'), None)
+            txt = cfr.text(arg) if arg is not None else '?'
+            ob(rep, 'SIB-series', fr.fq, f'{callee} receives only the ion types of its series', series in txt or self_filter,
+               f'filtered by {series}' if series in txt else 'the builder filters by itself',
+               f'{callee} is handed `{norm_stmt(arg) if arg is not None else "?"}`, which is not restricted to '
+               f'{series}, and does not restrict it itself: spans of this builder are also built for the ion types of '
+               f'the other series and reported under their labels', fr.loc(c_), clause)
+
+
 def series_routing(ctx, rep, clause):
     program = ctx.program
     t = rt.Tables(program)
@@ -357,6 +396,7 @@ def series_routing(ctx, rep, clause):
        {'TERMINAL_ION_TYPES', 'INTERNAL_ION_TYPES'} <= names and "'i' in ion_types" in ' '.join(
            norm_stmt(s) for s in fr.node.body), 'same series sets as get_number',
        'fragment() no longer routes on the series sets get_number dispatches on', fr.loc(), clause)
+    builder_subsets(ctx, rep, clause)
     tf = program.func(f'{FR}:_get_terminal_fragments')
     ctf = Canon(tf.node)
     txt = ' '.join(ctf.text(s) for s in tf.node.body)
@@ -616,6 +656,9 @@ def check(ctx, rep):
                                        ['loss', 'isotope', 'charge', 'ion_type']), 'C04d')
     from . import C05
     C05.build_fragments_bindings(ctx, rep, 'C04d')
+    n2 = add_fwd(rep, forwarding(an, program, ['isotope', 'loss', 'charge', 'ion_type', 'charge_adducts'],
+                                 callers={'peptacular.mass_calc:mass', 'peptacular.mass_calc:mz'}), 'C04d')
+    rep.floor('FWD', 'forwarding sites from mass()/mz() into adjust_mass', n2, 4)
     series_routing(ctx, rep, 'C04e')
     from . import C20 as _c20
     _c20.has_mods_coverage(ctx, rep, 'C04f')
